@@ -412,3 +412,32 @@ package nfa
 //@   opt safety=off
 //@   loop 1: ghost s0 = start
 //@   loop 1: lemma start == s0 + 1
+
+// ---- branch dispatch applicability: a branch is accepted only in a form buildBranchMatcher implements completely ----
+//@ spec func exactLit(re *syntax.Regexp) bool = re != nil && re.Op == 3 && (re.Flags & 1) == 0 && len(re.Rune) >= 1 && (forall k :: 0 <= k && k < len(re.Rune) ==> re.Rune[k] < 128)
+//@ spec func asciiClass(re *syntax.Regexp) bool = re != nil && re.Op == 4 && len(re.Rune) % 2 == 0 && (forall k :: 0 <= k && k < len(re.Rune) ==> re.Rune[k] < 128)
+//@ spec func byteClassN(c *syntax.Regexp) bool = len(c.Rune) % 2 == 0 && (forall j :: 0 <= j && j + 1 < len(c.Rune) && j % 2 == 0 ==> (c.Rune[j+1] < 128 || (c.Rune[j] <= 128 && c.Rune[j+1] == 0x10FFFF)))
+//@ func isExactLiteral
+//@   props C19
+//@   requires re != nil
+//@   ensures result <==> exactLit(re)
+//@   loop 1: invariant -1 <= rangeindex && rangeindex < rangelen && rangelen == len(re.Rune) && (forall k :: 0 <= k && k <= rangeindex ==> re.Rune[k] < 128)
+//@   loop 1: decreases rangelen - rangeindex
+//@ func isASCIIClass
+//@   props C19
+//@   requires re != nil
+//@   ensures result <==> asciiClass(re)
+//@   loop 1: invariant -1 <= rangeindex && rangeindex < rangelen && rangelen == len(re.Rune) && (forall k :: 0 <= k && k <= rangeindex ==> re.Rune[k] < 128)
+//@   loop 1: decreases rangelen - rangeindex
+//@ func IsByteClass
+//@   props C19
+//@   requires re != nil
+//@   ensures result <==> byteClassN(re)
+//@   loop 1: invariant 0 <= i && i % 2 == 0 && i <= len(re.Rune) + 1 && len(re.Rune) % 2 == 0
+//@   loop 1: invariant forall j :: 0 <= j && j + 1 < len(re.Rune) && j < i && j % 2 == 0 ==> (re.Rune[j+1] < 128 || (re.Rune[j] <= 128 && re.Rune[j+1] == 0x10FFFF))
+//@   loop 1: decreases len(re.Rune) - i
+//@ func isExactBranch
+//@   props C19
+//@   opt elems_nonnil=regexp/syntax.Regexp
+//@   requires re != nil
+//@   ensures result <==> (exactLit(re) || (re.Op == 18 && len(re.Sub) == 2 && exactLit(re.Sub[0]) && asciiClass(re.Sub[1])) || (re.Op == 15 && (re.Flags & 32) == 0 && len(re.Sub) == 1 && re.Sub[0].Op == 4 && byteClassN(re.Sub[0])))
